@@ -33,7 +33,7 @@ func (c Call) String() string {
 	if c.Path2 != "" {
 		s += " -> " + c.Path2
 	}
-	if c.Op == "write" || c.Op == "read" {
+	if c.Op == "write" || c.Op == "read" || c.Op == "pread" {
 		s += fmt.Sprintf(" n=%d", c.N)
 	}
 	if c.Err != "" {
@@ -56,8 +56,8 @@ type Disk struct {
 	// NoReplaceRename: rename fails with EEXIST when the destination is an existing file
 	// (rename semantics differ between platforms; code that handles EEXIST is exercised this way).
 	NoReplaceRename bool
-	S    *sim.Sim
-	Base string // containment root (the store's base directory)
+	S               *sim.Sim
+	Base            string // containment root (the store's base directory)
 
 	Trace    []Call
 	KeepPath bool
@@ -341,6 +341,22 @@ func (f *file) Read(p []byte) (int, error) {
 	return n, err
 }
 
+func (f *file) ReadAt(p []byte, off int64) (int, error) {
+	d := f.d
+	idx, _, ferr, ok := d.begin("pread", f.name, "", len(p), false)
+	if !ok {
+		return 0, ferr
+	}
+	n, err := f.f.ReadAt(p, off)
+	d.Trace[idx].N = n
+	if err != nil && err.Error() == "EOF" {
+		d.done(idx, nil)
+		return n, err
+	}
+	d.done(idx, err)
+	return n, err
+}
+
 func (f *file) Close() error {
 	d := f.d
 	idx, flt, ferr, ok := d.begin("close", f.name, "", 0, f.writable)
@@ -521,7 +537,7 @@ func FaultVariants(op string, n int, mut bool) []Fault {
 			fs = append(fs, Fault{Errno: syscall.ENOSPC, Short: 1}, Fault{Errno: syscall.ENOSPC, Short: n / 2}, Fault{Errno: syscall.EIO, Short: n - 1})
 		}
 		return fs
-	case "read":
+	case "read", "pread":
 		return []Fault{{Errno: syscall.EIO, Short: -1}}
 	case "close":
 		if mut {
